@@ -78,11 +78,26 @@ def check(run):
             d4, nb = foreign.drop_block_parameters_index(d3 if na and rng.random() < 0.5 else f["data"], rng)
             if nb:
                 extra.append(d4); run.count("pool: blocks without block-parameters-index", nb)
+            d5, ne = foreign.insert_empty_blocks(f["data"], rng)
+            if ne:
+                extra.append(d5); run.count("pool: files with item-less blocks")
+        # twins: a pool file and the same file with another tick rate / with or without collection parameters in its first
+        # parameter set - merged together their parameter sets must stay apart
+        twins = []
+        for f in pool[:(25 if quick else 250)]:
+            for tw in (foreign.twin_tick_rate(f["data"], rng), foreign.twin_collection(f["data"], rng)):
+                if tw is not None:
+                    twins.append((f, tw))
+        twin_pairs = []
         if extra and run.driver_ok:
             for d2, lg in zip(extra, G.run_driver(["cdns " + d.hex() for d in extra])):
                 if lg and lg.startswith("S F{") and " EOF #" in lg:
                     pool.append({"data": d2, "dump": lg[2:].split(" #")[0]})
                     run.count("pool: foreign-writer file")
+            for (f, tw), lg in zip(twins, G.run_driver(["cdns " + tw.hex() for _, tw in twins])):
+                if lg and lg.startswith("S F{") and " EOF #" in lg:
+                    g = {"data": tw, "dump": lg[2:].split(" #")[0]}
+                    pool.append(g); twin_pairs.append((f, g)); run.count("pool: twin files")
         cases = []
         for t in range(ntuples):
             members = []
@@ -107,6 +122,9 @@ def check(run):
                 else:
                     members.append(("dup", None, None) if members else ("garbage", b"", None))
             cases.append(members)
+        for f, g in twin_pairs:
+            cases.append([("ok", f["data"], f["dump"]), ("ok", g["data"], g["dump"])])
+            cases.append([("ok", g["data"], g["dump"]), ("ok", f["data"], f["dump"]), ("ok", g["data"], g["dump"])])
         lines = []
         metas = []
         for ci, members in enumerate(cases):
